@@ -75,6 +75,12 @@ def showOpt (o : Option Bytes) : String :=
   | some b => hexOrDash b
   | none => "!"
 
+def parseKeyArg (args : List String) : Option KeyArg := do
+  let v ← kv args "key"
+  if v = "nil" then some .nil
+  else if v = "foreign" then some .foreign
+  else (unhex v).map .ed
+
 def handle (op : String) (args : List String) : Option String :=
   match op with
   | "lowOrder" => do
@@ -105,6 +111,18 @@ def handle (op : String) (args : List String) : Option String :=
     let salt ← kvBytes args "salt"
     let n ← kvNat args "n"
     runProg (deriveProg ctx salt sk n) args
+  | "deriveArg" => do
+    -- key=nil | foreign | <hex raw key>
+    let k ← parseKeyArg args
+    let ctx ← kvBytes args "ctx"
+    let salt ← kvBytes args "salt"
+    let n ← kvNat args "n"
+    runProg (deriveArgProg ctx salt k n) args
+  | "deriveEd" => do
+    let k ← parseKeyArg args
+    let ctx ← kvBytes args "ctx"
+    let salt ← kvBytes args "salt"
+    runProg (deriveEdProg ctx salt k) args
   | "sigUnmarshal" => do
     let b ← kvBytes args "b"
     match unmarshal b with
